@@ -1,7 +1,6 @@
 package remoting
 
 import (
-	"bufio"
 	"encoding/binary"
 	"errors"
 	"fmt"
@@ -88,7 +87,8 @@ func (c *tcpConnectionActor) onLaunch(ctx vivid.ActorContext) {
 
 func (c *tcpConnectionActor) onReadConn(ctx vivid.ActorContext) (fatal bool, err error) {
 	// 消息读取
-	reader := bufio.NewReader(c.conn)
+	// 直接从连接读取：临时的 bufio.Reader 会预读后续帧的数据，并在本次调用结束后随之丢弃，导致合并到达的帧丢失
+	reader := c.conn
 	lengthBuf := make([]byte, 4)
 	if _, err = io.ReadFull(reader, lengthBuf); err != nil {
 		// 对等连接已关闭
